@@ -272,7 +272,7 @@ impl RenetServer {
     /// Creates a local [RenetClient], use this for testing.
     /// Use [`Self::process_local_client`] to update the local connection.
     pub fn new_local_client(&mut self, client_id: ClientId) -> RenetClient {
-        let mut client = RenetClient::new_from_server(self.connection_config.clone());
+        let mut client = RenetClient::new(self.connection_config.clone());
         client.set_connected();
 
         self.add_connection(client_id);
